@@ -156,11 +156,12 @@ class Pipeline:
 
 	REBUILD_EVERY = {'in-memory': 2000, 'on-disk': 400}
 
-	def __init__(self, mode: str, base_tmp: str, wall_cap: float = CAP_S) -> None:
+	def __init__(self, mode: str, base_tmp: str, wall_cap: float = CAP_S, post: Any = None) -> None:
 		assert mode in ('in-memory', 'on-disk')
 		self.mode = mode
 		self.base_tmp = base_tmp
 		self.wall_cap = wall_cap
+		self.post = post  # optional extra oracle: post(mode, data, outcome) may turn an outcome into a violation (with a key)
 		self.n = 0
 		self.runs = 0
 		self.rebuilds = 0
@@ -298,6 +299,8 @@ class Pipeline:
 		signal.signal(signal.SIGPROF, old_prof)
 		if out.kind == 'timeout':
 			self.rebuild()
+		if self.post is not None:
+			self.post(self.mode, data, out)
 		return out
 
 
@@ -308,9 +311,9 @@ def _safe_str(e: BaseException) -> str:
 		return f'<str() raised {type(e2).__name__}>'
 
 
-def fresh_outcome(mode: str, base_tmp: str, data: str | bytes, prefix: list[str | bytes] | None = None) -> Outcome:
+def fresh_outcome(mode: str, base_tmp: str, data: str | bytes, prefix: list[str | bytes] | None = None, post: Any = None) -> Outcome:
 	"""The outcome of `data` in a brand-new App (optionally after the inputs in `prefix`): history-free confirmation."""
-	p = Pipeline(mode, base_tmp)
+	p = Pipeline(mode, base_tmp, post=post)
 	try:
 		for d in prefix or []:
 			p.run(d)
